@@ -33,28 +33,28 @@ Definition pkey := (N * N)%type.              (* (recipient, collection) *)
 Definition pkey_eqb (a b : pkey) : bool := (fst a =? fst b) && (snd a =? snd b).
 
 Inductive tmsg :=
-| TMint (to : addr) (tok : N)          (* Mint{token_id, owner} to the minter's own collection *)
-| TBurn (coll : addr) (tok : N).       (* Burn{token_id} sent back to the collection that called *)
+| TMint (to : N) (tok : N)          (* Mint{token_id, owner} to the minter's own collection *)
+| TBurn (coll : N) (tok : N).       (* Burn{token_id} sent back to the collection that called *)
 
 Record tm_state := mkTm {
-  tm_admin : addr;
+  tm_admin : N;
   tm_start : N;                         (* config.extension.start_time, ns *)
   tm_limit : N;                         (* config.extension.per_address_limit *)
   tm_num_tokens : N;                    (* config.extension.num_tokens *)
-  tm_req : list (addr * N);             (* config.extension.mint_tokens *)
+  tm_req : list (N * N);             (* config.extension.mint_tokens *)
   tm_max_limit : N;                     (* factory: max_per_address_limit *)
   tm_airdrop_price : N;                 (* factory: airdrop_mint_price.amount (ustars) *)
   tm_shuffle_fee : N;                   (* factory: shuffle_fee.amount (ustars) *)
   tm_mintable : N;                      (* MINTABLE_NUM_TOKENS *)
   tm_avail : list N;                    (* token ids still in MINTABLE_TOKEN_POSITIONS *)
-  tm_counts : list (addr * N);          (* MINTER_ADDRS *)
+  tm_counts : list (N * N);          (* MINTER_ADDRS *)
   tm_ledger : list (pkey * N)           (* RECEIVED_TOKENS *)
 }.
 
 Definition set_ledger (st : tm_state) (l : list (pkey * N)) : tm_state :=
   mkTm (tm_admin st) (tm_start st) (tm_limit st) (tm_num_tokens st) (tm_req st) (tm_max_limit st)
        (tm_airdrop_price st) (tm_shuffle_fee st) (tm_mintable st) (tm_avail st) (tm_counts st) l.
-Definition set_counts (st : tm_state) (c : list (addr * N)) : tm_state :=
+Definition set_counts (st : tm_state) (c : list (N * N)) : tm_state :=
   mkTm (tm_admin st) (tm_start st) (tm_limit st) (tm_num_tokens st) (tm_req st) (tm_max_limit st)
        (tm_airdrop_price st) (tm_shuffle_fee st) (tm_mintable st) (tm_avail st) c (tm_ledger st).
 Definition set_supply (st : tm_state) (m : N) (av : list N) : tm_state :=
@@ -67,26 +67,26 @@ Definition set_limit (st : tm_state) (l : N) : tm_state :=
   mkTm (tm_admin st) (tm_start st) l (tm_num_tokens st) (tm_req st) (tm_max_limit st)
        (tm_airdrop_price st) (tm_shuffle_fee st) (tm_mintable st) (tm_avail st) (tm_counts st) (tm_ledger st).
 
-Definition ledger (st : tm_state) (r c : addr) : N := al_get pkey_eqb (r, c) (tm_ledger st).
-Definition count (st : tm_state) (r : addr) : N := al_get N.eqb r (tm_counts st).
+Definition ledger (st : tm_state) (r c : N) : N := al_get pkey_eqb (r, c) (tm_ledger st).
+Definition count (st : tm_state) (r : N) : N := al_get N.eqb r (tm_counts st).
 
-Definition addr_ok (a : addr) : bool := negb (a =? 0).
+Definition addr_ok (a : N) : bool := negb (a =? 0).
 
 (* `recipient.unwrap_or(sender)`: the explicit recipient of DepositToken, else the
    `sender` field of the Cw721ReceiveMsg (the account that called SendNft) *)
-Definition recipient_of (cw_sender : addr) (recip : option addr) : addr :=
+Definition recipient_of (cw_sender : N) (recip : option N) : N :=
   match recip with Some r => r | None => cw_sender end.
 
 (* `mint_tokens.iter().find(|t| t.collection == info.sender)` *)
-Definition req_amount (c : addr) (req : list (addr * N)) : option N :=
+Definition req_amount (c : N) (req : list (N * N)) : option N :=
   match find (fun p => fst p =? c) req with Some p => Some (snd p) | None => None end.
 
 (* check_all_mint_tokens_received *)
-Definition all_met (led : list (pkey * N)) (r : addr) (req : list (addr * N)) : bool :=
+Definition all_met (led : list (pkey * N)) (r : N) (req : list (N * N)) : bool :=
   forallb (fun p => snd p <=? al_get pkey_eqb (r, fst p) led) req.
 
 (* `for mint_token in mint_tokens { RECEIVED_TOKENS.remove((recipient, collection)) }` *)
-Fixpoint clear_ledger (r : addr) (req : list (addr * N)) (led : list (pkey * N)) : list (pkey * N) :=
+Fixpoint clear_ledger (r : N) (req : list (N * N)) (led : list (pkey * N)) : list (pkey * N) :=
   match req with
   | [] => led
   | p :: t => clear_ledger r t (al_remove pkey_eqb (r, fst p) led)
@@ -100,7 +100,7 @@ Fixpoint remove_tok (t : N) (l : list N) : list N :=
 
 (* the tail of _execute_mint: sold-out test, the token leaves the mintable set, the
    counter drops by one, the recipient's mint count grows by one (u32) *)
-Definition take_token (r : addr) (t : N) (st : tm_state) : result tm_state :=
+Definition take_token (r : N) (t : N) (st : tm_state) : result tm_state :=
   do _ <- guard (0 <? tm_mintable st);
   do _ <- guard (existsb (N.eqb t) (tm_avail st));
   let c := count st r in
@@ -110,7 +110,7 @@ Definition take_token (r : addr) (t : N) (st : tm_state) : result tm_state :=
 
 (* ExecuteMsg::ReceiveNft(Cw721ReceiveMsg{sender, token_id, msg = DepositToken{recipient}})
    with info.sender = caller *)
-Definition receive (now : N) (caller cw_sender : addr) (recip : option addr) (tok pick : N)
+Definition receive (now : N) (caller cw_sender : N) (recip : option N) (tok pick : N)
                    (st : tm_state) : result (tm_state * list tmsg) :=
   do _ <- guard (tm_start st <? now);
   let r := recipient_of cw_sender recip in
@@ -130,7 +130,7 @@ Definition receive (now : N) (caller cw_sender : addr) (recip : option addr) (to
   end.
 
 (* MintTo / MintFor: admin only, exact airdrop price, no ledger involvement *)
-Definition admin_mint (caller recipient : addr) (funds : list coin) (fixed : option N) (pick : N)
+Definition admin_mint (caller recipient : N) (funds : list coin) (fixed : option N) (pick : N)
                       (st : tm_state) : result (tm_state * list tmsg) :=
   do _ <- guard (addr_ok recipient);
   do _ <- guard (caller =? tm_admin st);
@@ -146,16 +146,16 @@ Definition dynamic_limit_ok (l n maxl : N) : bool :=
   if maxl <? l then false else if n <? 100 then l <=? 3 else l <=? three_percent n.
 
 Inductive tm_op :=
-| OReceive (caller cw_sender : addr) (recip : option addr) (tok pick : N)
-| OMintTo (caller recipient : addr) (funds : list coin) (pick : N)
-| OMintFor (caller : addr) (tid : N) (recipient : addr) (funds : list coin)
-| OShuffle (caller : addr) (funds : list coin)
-| OPurge (caller : addr) (funds : list coin)
-| OBurnRemaining (caller : addr) (funds : list coin)
-| OUpdStart (caller : addr) (t : N) (funds : list coin)
-| OUpdLimit (caller : addr) (l : N) (funds : list coin).
+| OReceive (caller cw_sender : N) (recip : option N) (tok pick : N)
+| OMintTo (caller recipient : N) (funds : list coin) (pick : N)
+| OMintFor (caller : N) (tid : N) (recipient : N) (funds : list coin)
+| OShuffle (caller : N) (funds : list coin)
+| OPurge (caller : N) (funds : list coin)
+| OBurnRemaining (caller : N) (funds : list coin)
+| OUpdStart (caller : N) (t : N) (funds : list coin)
+| OUpdLimit (caller : N) (l : N) (funds : list coin).
 
-Definition step (minter : addr) (now : N) (op : tm_op) (st : tm_state) : result (tm_state * list tmsg) :=
+Definition step (minter : N) (now : N) (op : tm_op) (st : tm_state) : result (tm_state * list tmsg) :=
   match op with
   | OReceive caller cws recip tok pick => receive now caller cws recip tok pick st
   | OMintTo caller r funds pick => admin_mint caller r funds None pick st
@@ -194,12 +194,12 @@ Definition step (minter : addr) (now : N) (op : tm_op) (st : tm_state) : result 
 (* ---------- ghost accounting, defined from the *emitted messages* only ---------- *)
 Record ghost := mkGhost {
   g_cred : list (pkey * N);      (* (recipient, collection) -> Burn messages sent to `collection` in deposit steps credited to `recipient` *)
-  g_dm : list (addr * N)         (* recipient -> Mint messages emitted by deposit steps *)
+  g_dm : list (N * N)         (* recipient -> Mint messages emitted by deposit steps *)
 }.
-Definition cred (g : ghost) (r c : addr) : N := al_get pkey_eqb (r, c) (g_cred g).
-Definition dmints (g : ghost) (r : addr) : N := al_get N.eqb r (g_dm g).
+Definition cred (g : ghost) (r c : N) : N := al_get pkey_eqb (r, c) (g_cred g).
+Definition dmints (g : ghost) (r : N) : N := al_get N.eqb r (g_dm g).
 
-Fixpoint ghost_msgs (r : addr) (ms : list tmsg) (g : ghost) : ghost :=
+Fixpoint ghost_msgs (r : N) (ms : list tmsg) (g : ghost) : ghost :=
   match ms with
   | [] => g
   | TBurn c _ :: t =>
@@ -208,7 +208,7 @@ Fixpoint ghost_msgs (r : addr) (ms : list tmsg) (g : ghost) : ghost :=
       ghost_msgs r t (mkGhost (g_cred g) (al_set N.eqb r' (al_get N.eqb r' (g_dm g) + 1) (g_dm g)))
   end.
 
-Definition gstep (minter : addr) (sg : tm_state * ghost) (e : N * tm_op) : tm_state * ghost :=
+Definition gstep (minter : N) (sg : tm_state * ghost) (e : N * tm_op) : tm_state * ghost :=
   let '(st, g) := sg in
   let '(now, op) := e in
   match step minter now op st with
@@ -219,14 +219,14 @@ Definition gstep (minter : addr) (sg : tm_state * ghost) (e : N * tm_op) : tm_st
       | _ => (st', g)
       end
   end.
-Definition grun (minter : addr) (h : list (N * tm_op)) (sg : tm_state * ghost) : tm_state * ghost :=
+Definition grun (minter : N) (h : list (N * tm_op)) (sg : tm_state * ghost) : tm_state * ghost :=
   fold_left (gstep minter) h sg.
 Definition ghost0 : ghost := mkGhost [] [].
 
 (* ---------- the world: source collections + target collection around the minter ---------- *)
 Record world := mkWorld {
   w_m : tm_state;
-  w_minter : addr;
+  w_minter : N;
   w_src : list (pkey * N);        (* (collection, token) -> owner id; absent = does not exist.  Owner ids are never 0 *)
   w_tgt : list (N * N)            (* target token id -> owner id *)
 }.
@@ -234,7 +234,7 @@ Definition src_owner (w : world) (c t : N) : N := al_get pkey_eqb (c, t) (w_src 
 Definition tgt_owner (w : world) (t : N) : N := al_get N.eqb t (w_tgt w).
 
 (* execute the minter's messages in order; None = some message failed *)
-Fixpoint exec_msgs (minter : addr) (ms : list tmsg) (src : list (pkey * N)) (tgt : list (N * N))
+Fixpoint exec_msgs (minter : N) (ms : list tmsg) (src : list (pkey * N)) (tgt : list (N * N))
   : option (list (pkey * N) * list (N * N)) :=
   match ms with
   | [] => Some (src, tgt)
@@ -248,9 +248,9 @@ Fixpoint exec_msgs (minter : addr) (ms : list tmsg) (src : list (pkey * N)) (tgt
   end.
 
 Inductive wop :=
-| WSend (coll caller tok : N) (wellformed : bool) (recip : option addr) (pick : N)
+| WSend (coll caller tok : N) (wellformed : bool) (recip : option N) (pick : N)
     (* `caller` executes SendNft{contract: minter, token_id: tok, msg} on `coll`; wellformed = the payload parses as DepositToken *)
-| WDirect (caller cw_sender tok : N) (recip : option addr) (pick : N)
+| WDirect (caller cw_sender tok : N) (recip : option N) (pick : N)
     (* an account calls the minter's ReceiveNft itself *)
 | WAdmin (op : tm_op).            (* any other minter entry point, called directly *)
 
